@@ -729,6 +729,8 @@ fn main() {
         (1, vec![pie.clone(), w.clone(), w.clone(), w.clone(), w.clone(), Act::Search]),
         // stop while holding a task: the iteration finishes, then the final checkpoint
         (100, vec![pie.clone(), Act::Commit, w.clone(), Act::Stop, w.clone(), w.clone(), w.clone(), w.clone(), w.clone()]),
+        // stop while holding the first of two tasks: the second one must stay in the queue
+        (100, vec![pie.clone(), pie.clone(), Act::Commit, w.clone(), Act::Stop]),
         // stop with an empty queue, more puts afterwards stay queued
         (100, vec![Act::Stop, w.clone(), pie.clone(), w.clone(), Act::Commit]),
         // the put's own auto-commit (WAL 75 % full)
